@@ -582,7 +582,13 @@ package spine
 // write approval (details: C12). No response is sent while a write is pending.
 //@ func (*FeatureLocal).addPendingApproval
 //@   requires r != nil && msg != nil && r.Feature != nil
+//@   let SKI = msg.DeviceRemote.Ski()
+//@   define ARM = r.Feature.role == model.RoleTypeServer && msg.DeviceRemote != nil && msg.RequestHeader != nil && msg.RequestHeader.MsgCounter != nil
 //@   ensures[C01,C12] no-response: respSame && sendfails == old(sendfails)
+//@   ensures[C12] armed: old(WINV(r) && ARM) ==> PEND(r, SKI, *msg.RequestHeader.MsgCounter)
+//@   ensures[C12] others-untouched: old(WINV(r)) ==> forall s string, m model.MsgCounterType :: !(old(ARM) && s == SKI && m == *msg.RequestHeader.MsgCounter) ==> (PEND(r, s, m) <==> old(PEND(r, s, m))) && TALLY(r, s, m) == old(TALLY(r, s, m))
+//@   ensures[C12] inv-kept: old(WINV(r)) ==> WINV(r)
+//@   ensures[C12] not-applied: wapplied == old(wapplied)
 //@   modifies map(gomap[string]map[model.MsgCounterType]*time.Timer), map(gomap[model.MsgCounterType]*time.Timer), timers, held
 
 //@ func (*FeatureLocal).processWriteApprovalCallbacks
@@ -649,6 +655,10 @@ package spine
 //@ func[C01] (*FeatureLocal).HandleMessage impl:api.FeatureLocalInterface.HandleMessage safety-root
 //@   assumes r != nil && r.Feature != nil && r.address != nil && r.responseMsgCallback != nil && r.entity != nil && r.pendingWriteApprovals != nil && r.writeApprovalReceived != nil && (forall k string :: has(r.pendingWriteApprovals, k) ==> r.pendingWriteApprovals[k] != nil)
 //@   requires r != nil && r.Feature != nil && r.address != nil && r.responseMsgCallback != nil
+//@   define WRITE_OK = message.CmdClassifier == model.CmdClassifierTypeWrite && cmdHasData(message.Cmd) && cmdHasFct(message.Cmd)
+//@   let CBS = r.writeApprovalCallbacks
+//@   ensures[C12] write-deferred: old(WRITE_OK && len(CBS) > 0) ==> result == nil && wapplied == old(wapplied) && respSame && spawnn == old(spawnn) + len(CBS) && forall d int :: old(spawnn) <= d && d < spawnn ==> spawnfn[d] == old(CBS[d - old(spawnn)]) && spawnarg(d, 0, *api.Message) == message
+//@   ensures[C12] write-direct: old(WRITE_OK && len(CBS) == 0) ==> result == nil && wapplied == old(wapplied) + 1 && wmsg[old(wapplied)] == message
 //@   modifies map(gomap[string]map[model.MsgCounterType]*time.Timer), map(gomap[model.MsgCounterType]*time.Timer), map(gomap[model.MsgCounterType][]func(api.ResponseMessage)), timers
 
 // ---------------------------------------------------------------------------------------
